@@ -1797,3 +1797,420 @@ func ruleCacheGetOrCreate(w *World, r *Report) {
 	}
 	r.ok("CACHE-GET-OR-CREATE", key, w.PosOf(publish[0]), "published only on the not-present edge of the table lookup")
 }
+
+// THUNK-LAZY (C04): the thunk builders do not look into the bindings before the thunk runs.
+func ruleThunkLazy(w *World, r *Report) {
+	r.Rule("THUNK-LAZY", "Location.ExecAction first asks getActionFunc (or an ActionInterpreter's GetThunk) for a thunk and only then replaces the event in the bindings by a private copy (maybeCopyEvent) before it runs the thunk.  Therefore the thunk builders use the bindings parameter only by capturing it in the closure they return or by handing it on to another builder: a call on it, a lookup or a range in the builder's own body takes a snapshot that still holds the event map shared by every action of the event", 2)
+	exec := w.Method("core", "Location", "ExecAction")
+	gaf := w.Method("core", "Location", "getActionFunc")
+	bsT := w.Named("core", "Bindings")
+	// premise: the copy is made after the builder returned
+	copyEv := w.Func("core", "maybeCopyEvent")
+	var callGaf, callCopy ssa.Instruction
+	allInstrs(exec, func(in ssa.Instruction) {
+		if c := callOf(in); c != nil {
+			if c.StaticCallee() == gaf {
+				callGaf = in
+			}
+			if c.StaticCallee() == copyEv {
+				callCopy = in
+			}
+		}
+	})
+	if callGaf == nil || callCopy == nil || !reachable(exec, callGaf, callCopy) || reachable(exec, callCopy, callGaf) {
+		r.exempt("THUNK-LAZY", "fn="+fname(exec), w.Pos(exec.Pos()), "premise fails: ExecAction no longer copies the event after it built the thunk; not decided by this rule")
+		return
+	}
+	builders := map[*ssa.Function]bool{gaf: true}
+	iface := w.Iface("core", "ActionInterpreter")
+	for _, n := range w.Implementers(iface) {
+		if f := w.TryMethod(typeRel(n), n.Obj().Name(), "GetThunk"); f != nil && !isTestFile(w, f) {
+			builders[f] = true
+		}
+	}
+	var fs []*ssa.Function
+	for f := range builders {
+		fs = append(fs, f)
+	}
+	sort.Slice(fs, func(i, j int) bool { return fs[i].String() < fs[j].String() })
+	for _, fn := range fs {
+		var bs *ssa.Parameter
+		for _, p := range fn.Params {
+			if types.Identical(p.Type(), bsT) {
+				bs = p
+			}
+		}
+		key := "fn=" + fname(fn)
+		if bs == nil {
+			r.info("THUNK-LAZY", key, w.Pos(fn.Pos()), "no Bindings parameter")
+			continue
+		}
+		var bad ssa.Instruction
+		allInstrs(fn, func(in ssa.Instruction) {
+			if bad != nil {
+				return
+			}
+			uses := false
+			for _, op := range in.Operands(nil) {
+				if op == nil || *op == nil {
+					continue
+				}
+				if valueIs(*op, bs) {
+					uses = true
+				}
+				// the address of the variable the parameter was spilled into (a pointer-receiver call on it)
+				if al, ok := (*op).(*ssa.Alloc); ok {
+					for _, ref := range *al.Referrers() {
+						if st, ok := ref.(*ssa.Store); ok && st.Addr == ssa.Value(al) && st.Val == ssa.Value(bs) && ssa.Instruction(st) != in {
+							uses = true
+						}
+					}
+				}
+			}
+			if !uses {
+				return
+			}
+			switch x := in.(type) {
+			case *ssa.MapUpdate:
+				// put into a local map that is serialised on the spot (the body of an HTTP action): bytes keep no
+				// reference to the event
+				if mm, ok := x.Map.(*ssa.MakeMap); ok && x.Value == ssa.Value(bs) || func() bool {
+					mi, ok := x.Value.(*ssa.MakeInterface)
+					return ok && valueIs(mi.X, bs)
+				}() {
+					if mm == nil {
+						mm, _ = x.Map.(*ssa.MakeMap)
+					}
+					if mm != nil && serialisedOnly(mm) {
+						return
+					}
+				}
+			case *ssa.MakeClosure:
+				return // captured for later
+			case *ssa.UnOp:
+				return // a load of the spilled parameter: what consumes the loaded value is judged
+			case *ssa.Store:
+				if _, isAlloc := x.Addr.(*ssa.Alloc); isAlloc && x.Val == ssa.Value(bs) {
+					return // spilled into the variable that the closure captures
+				}
+			case *ssa.DebugRef:
+				return
+			case ssa.CallInstruction:
+				c := x.Common()
+				callees := []*ssa.Function{}
+				if f := c.StaticCallee(); f != nil {
+					callees = append(callees, f)
+				} else {
+					callees = w.Callees(x)
+				}
+				all := len(callees) > 0
+				for _, f := range callees {
+					if !builders[f] {
+						all = false
+					}
+				}
+				if all {
+					return // handed on to another builder
+				}
+				if c.IsInvoke() && c.Method.Name() == "GetThunk" {
+					return // handed on to an ActionInterpreter (also those registered from outside rulio)
+				}
+				// logging takes it as a value to print: that reads it, but nothing is kept; SubstituteBindings
+				// returns a string
+				if f := c.StaticCallee(); f != nil && (f == w.Func("core", "Log") || f == w.TryFunc("core", "SubstituteBindings")) {
+					return
+				}
+			case *ssa.MakeInterface:
+				// boxed for a log call, or for a map that is serialised on the spot?
+				if refs := x.Referrers(); refs != nil {
+					allSer := len(*refs) > 0
+					for _, ref := range *refs {
+						mu, ok := ref.(*ssa.MapUpdate)
+						if !ok {
+							allSer = false
+							break
+						}
+						mm, ok := mu.Map.(*ssa.MakeMap)
+						if !ok || !serialisedOnly(mm) {
+							allSer = false
+						}
+					}
+					if allSer {
+						return
+					}
+				}
+				onlyLog := true
+				if refs := x.Referrers(); refs != nil {
+					for _, ref := range *refs {
+						if st, ok := ref.(*ssa.Store); ok {
+							_ = st
+							continue
+						}
+						onlyLog = false
+					}
+				}
+				if onlyLog {
+					return
+				}
+			}
+			bad = in
+		})
+		if bad != nil {
+			r.violation("THUNK-LAZY", key, w.PosOf(bad), "the thunk builder looks into the bindings before the thunk runs: what it keeps still refers to the event map that all actions of the event share (ExecAction copies the event only afterwards)")
+		} else {
+			r.ok("THUNK-LAZY", key, w.Pos(fn.Pos()), "the bindings are only captured / handed on")
+		}
+	}
+}
+
+// VALUES-OWN-DISP (C04): a value is reported for the node that produced it, under that node's own disposition.
+func ruleValuesOwnDisp(w *World, r *Report) {
+	r.Rule("VALUES-OWN-DISP", "in WorkWalk every append of an action node's Value to FindRules.Values is control-dependent on a test of the Disposition of that same node (the same SSA value is the base of both field reads): `values` reports exactly the executions that completed; a test of another node's disposition (the condition node is always complete at that point) reports failed actions as values", 2)
+	ww := w.Method("core", "Location", "WorkWalk")
+	n := 0
+	withAnon(ww, func(fn *ssa.Function) {
+		allInstrs(fn, func(in ssa.Instruction) {
+			c, ok := isBuiltinCall(in, "append")
+			if !ok {
+				return
+			}
+			for _, e := range appendedElems(c) {
+				nm, f, base, ok := loadedField(e)
+				if !ok || typeKey(nm) != "core.ExecRuleAction" || f != "Value" {
+					continue
+				}
+				n++
+				key := "fn=" + fname(fn) + " append#" + itoa(n)
+				own := func(v ssa.Value) bool {
+					n2, f2, b2, ok := loadedField(v)
+					return ok && typeKey(n2) == "core.ExecRuleAction" && f2 == "Disposition" && canonValue(b2) == canonValue(base)
+				}
+				if controlDependsOn(fn, in, own) {
+					r.ok("VALUES-OWN-DISP", key, w.PosOf(in), "under a test of the same node's disposition")
+				} else {
+					r.violation("VALUES-OWN-DISP", "fn="+fname(fn), w.PosOf(in), "an action's value is appended to `values` without a test of that action's own disposition")
+				}
+			}
+		})
+	})
+	if n == 0 {
+		r.exempt("VALUES-OWN-DISP", "fn="+fname(ww), w.Pos(ww.Pos()), "WorkWalk does not append action values directly: shape not recognised, not decided")
+	}
+}
+
+// serialisedOnly: the locally made map is only filled, boxed and handed to json.Marshal / a log call: it is
+// neither captured by a closure, nor returned, nor stored anywhere.
+func serialisedOnly(mm *ssa.MakeMap) bool {
+	refs := mm.Referrers()
+	if refs == nil {
+		return false
+	}
+	marshalled := false
+	var ok func(refs []ssa.Instruction, depth int) bool
+	ok = func(refs []ssa.Instruction, depth int) bool {
+		if depth > 4 {
+			return false
+		}
+		for _, ref := range refs {
+			switch y := ref.(type) {
+			case *ssa.MapUpdate, *ssa.Lookup, *ssa.DebugRef:
+			case *ssa.MakeInterface:
+				if r2 := y.Referrers(); r2 != nil && !ok(*r2, depth+1) {
+					return false
+				}
+			case *ssa.ChangeType:
+				if r2 := y.Referrers(); r2 != nil && !ok(*r2, depth+1) {
+					return false
+				}
+			case *ssa.Store:
+				// a varargs slot of a log call
+				if _, isIdx := y.Addr.(*ssa.IndexAddr); !isIdx {
+					return false
+				}
+			case *ssa.Call:
+				f := y.Common().StaticCallee()
+				if f == nil || f.Pkg == nil {
+					return false
+				}
+				if f.Pkg.Pkg.Path() == "encoding/json" && f.Name() == "Marshal" {
+					marshalled = true
+				} else if !(f.Pkg.Pkg.Path() == modPath+"/core" && f.Name() == "Log") {
+					return false
+				}
+			default:
+				return false
+			}
+		}
+		return true
+	}
+	return ok(*refs, 0) && marshalled
+}
+
+// EXP-TTL-CONSUMED (C07): a relative ttl is turned into the absolute instant once.
+func ruleExpTtlConsumed(w *World, r *Report) {
+	r.Rule("EXP-TTL-CONSUMED", "setExpires turns a `ttl` into the absolute `expires` and removes the `ttl` from the fact on every path on which it accepts the fact (with the `no ttl given` edge deleted, every success return lies behind delete(fact, \"ttl\")): what is stored carries only the absolute instant.  A record that keeps its ttl is re-prepared when the location is reloaded, and its expiry moves to reload time plus ttl", 1)
+	fn := w.Func("core", "setExpires")
+	var fact *ssa.Parameter
+	for _, p := range fn.Params {
+		if _, ok := p.Type().Underlying().(*types.Map); ok {
+			fact = p
+		}
+	}
+	key := "fn=" + fname(fn)
+	if fact == nil {
+		undecided("EXP-TTL-CONSUMED: setExpires has no map parameter")
+	}
+	var lk *ssa.Lookup
+	allInstrs(fn, func(in ssa.Instruction) {
+		if l, ok := in.(*ssa.Lookup); ok && valueIs(l.X, fact) && l.CommaOk {
+			if k, ok := constKey(l.Index); ok && k == "ttl" && lk == nil {
+				lk = l
+			}
+		}
+	})
+	if lk == nil {
+		r.exempt("EXP-TTL-CONSUMED", key, w.Pos(fn.Pos()), "setExpires does not look `ttl` up with a comma-ok test: shape not recognised, not decided")
+		return
+	}
+	del := map[bedge]bool{}
+	for _, b := range fn.Blocks {
+		if len(b.Instrs) == 0 {
+			continue
+		}
+		ifi, ok := b.Instrs[len(b.Instrs)-1].(*ssa.If)
+		if !ok {
+			continue
+		}
+		ct, ok := decodeIf(ifi)
+		if !ok {
+			continue
+		}
+		if ex, ok := ct.V.(*ssa.Extract); ok && ex.Tuple == ssa.Value(lk) && ex.Index == 1 {
+			if ct.TrueWhen == "true" {
+				del[bedge{b, 1}] = true
+			} else if ct.TrueWhen == "false" {
+				del[bedge{b, 0}] = true
+			}
+		}
+	}
+	if len(del) == 0 {
+		r.exempt("EXP-TTL-CONSUMED", key, w.PosOf(lk), "the result of the ttl lookup is not branched on: shape not recognised, not decided")
+		return
+	}
+	isDel := func(in ssa.Instruction) bool {
+		c, ok := isBuiltinCall(in, "delete")
+		if !ok || len(c.Call.Args) != 2 || !valueIs(c.Call.Args[0], fact) {
+			return false
+		}
+		k, ok := constKey(c.Call.Args[1])
+		return ok && k == "ttl"
+	}
+	if h, path := reach(fn, lk, func(in ssa.Instruction) bool { return isSuccessReturnPS(in) }, isDel, edgeFilterOf(del)); h != nil {
+		r.violation("EXP-TTL-CONSUMED", key, w.PosOf(h), "a fact given with a ttl can be accepted with the ttl still in it: the stored record keeps the relative ttl next to the absolute expiry and gets a new expiry on every reload", blockPathString(w, path)...)
+		return
+	}
+	r.ok("EXP-TTL-CONSUMED", key, w.PosOf(lk), "the ttl is removed on every accepting path")
+}
+
+// PARENTS-VALUE (C09, C06): what setParents stores is the location's own, and is a list even when it is empty.
+func ruleParentsValue(prop string) ruleFn {
+	return func(w *World, r *Report) {
+		r.Rule("PARENTS-VALUE", "the value Location.setParents stores as the `parents` property is (a) built in that call — it does not alias the caller's slice, which the caller may reuse for another location or write to later, silently changing this location's parent set in memory but not in storage — and (b) a slice made with make() on every path, never a possibly-nil slice: JSON stores a nil slice as null, and a reloaded location then fails every inherited search with `didn't expect parents <nil>`", 1)
+		fn := w.Method("core", "Location", "setParents")
+		setProp := w.Func("core", "SetProp")
+		var parents *ssa.Parameter
+		for _, p := range fn.Params {
+			if _, ok := p.Type().Underlying().(*types.Slice); ok {
+				parents = p
+			}
+		}
+		key := "fn=" + fname(fn)
+		var val ssa.Value
+		var site ssa.Instruction
+		allInstrs(fn, func(in ssa.Instruction) {
+			c := callOf(in)
+			if c == nil || c.StaticCallee() != setProp || len(c.Args) == 0 {
+				return
+			}
+			val = c.Args[len(c.Args)-1]
+			site = in
+		})
+		if val == nil || parents == nil {
+			r.exempt("PARENTS-VALUE", key, w.Pos(fn.Pos()), "setParents does not call core.SetProp directly: shape not recognised, not decided")
+			return
+		}
+		if mi, ok := val.(*ssa.MakeInterface); ok {
+			val = mi.X
+		}
+		if rootsAtDeep(val, parents, 0) {
+			r.violation("PARENTS-VALUE", key, w.PosOf(site), "the stored parents value aliases the caller's slice")
+			return
+		}
+		// every way the value can come about is a make()
+		var allMade func(v ssa.Value, d int) (bool, bool)
+		allMade = func(v ssa.Value, d int) (made bool, known bool) {
+			if d > 8 {
+				return false, false
+			}
+			switch x := v.(type) {
+			case *ssa.MakeSlice:
+				return true, true
+			case *ssa.Slice:
+				if _, ok := x.X.(*ssa.Alloc); ok {
+					return true, true // make with a constant size
+				}
+				return allMade(x.X, d+1)
+			case *ssa.Const:
+				return false, true // the nil slice
+			case *ssa.Phi:
+				for _, e := range x.Edges {
+					if e == v {
+						continue
+					}
+					m, k := allMade(e, d+1)
+					if !k {
+						return false, false
+					}
+					if !m {
+						return false, true
+					}
+				}
+				return true, true
+			case *ssa.Call:
+				if b, ok := x.Common().Value.(*ssa.Builtin); ok && b.Name() == "append" && len(x.Call.Args) > 0 {
+					return allMade(x.Call.Args[0], d+1)
+				}
+			case *ssa.UnOp:
+				if a, ok := x.X.(*ssa.Alloc); ok {
+					n := 0
+					for _, ref := range *a.Referrers() {
+						if st, ok := ref.(*ssa.Store); ok && st.Addr == ssa.Value(a) {
+							n++
+							m, k := allMade(st.Val, d+1)
+							if !k {
+								return false, false
+							}
+							if !m {
+								return false, true
+							}
+						}
+					}
+					if n == 0 {
+						return false, true // zero value
+					}
+					return true, true
+				}
+			}
+			return false, false
+		}
+		made, known := allMade(val, 0)
+		switch {
+		case !known:
+			r.exempt("PARENTS-VALUE", key, w.PosOf(site), "how the stored value is built is not recognised: the nil-ness clause is not decided (no alias of the parameter)")
+		case !made:
+			r.violation("PARENTS-VALUE", key, w.PosOf(site), "the stored parents value can be a nil slice (for an empty parent list): it is persisted as JSON null and the reloaded location cannot read its parents")
+		default:
+			r.ok("PARENTS-VALUE", key, w.PosOf(site), "a slice made in this call on every path")
+		}
+	}
+}
